@@ -4,8 +4,8 @@ from . import common as C
 
 MANIFEST = dict(
    technique="Lean 4 proof (fromJS, a transcription of jsonschema/from.go over the JSON-Schema keyword AST, returns on every good document of a structured fragment J1 a schema that accepts exactly the valid instances; round trip as a corollary of C07; strict-mode theorems over a keyword table regenerated behaviourally from the code) + differential correspondence against FromJSONSchema/ParseAny, an independent validator on the original document and on the round-trip document, for generated documents over the whole documented keyword table incl. sibling keywords",
-   text="c11_equiv_partial: for every good document d of J1 (string/number with all bounds, multipleOf, pattern, listed formats, boolean, null, {}, true/false, arrays, closed tuples, objects with required properties and additionalProperties false/absent/schema, record objects, const, enum incl. mixed kinds, anyOf/oneOf/allOf, $ref), any strict flag and any strict-mode table: fromJS returns a schema s with jsValid d.doc x = acceptsDecoded s x for in-scope x. c11_roundtrip: on the closed, format-free part, jsValid (toDoc s) x = jsValid d.doc x (via C07). c11_strict_rejects / c11_strict_silent / c11_strict_full_false over the regenerated keyword table. Each excluded class has a witness theorem and a replayed instance.",
-   note="PARTIAL: outside good/J1 the pinned code violates the property (integer type, nullable unions, sibling keywords next to $ref/allOf/anyOf/oneOf/const/enum/format, keywords without type, open tuples, optional properties accepting null, required on the record path, open objects closed by the round trip, intersection semantics, strict mode silent/unreached keywords): open findings. Not modelled: recursive $ref (non-object cycles would overflow the stack in from.go), user regexes beyond the five emitted shapes, const/enum with array/object values (Parse panics on uncomparable values), format semantics (relative to a sample universe agreed on by gozod and the validator), round trip of format schemas. Trusted as for C07.",
+   text="c11_equiv_partial: for every good document d of J1 (string/number with all bounds, multipleOf, pattern, listed formats, boolean, null, {}, true/false, arrays, closed tuples, objects with required properties and additionalProperties false/absent/schema, record objects, const, enum incl. mixed kinds, anyOf/oneOf/allOf, $ref), any strict flag and any strict-mode table: fromJS returns a schema s with jsValid d.doc x = acceptsDecoded s x for in-scope x. c11_roundtrip: on the closed, format-free part, jsValid (toDoc s) x = jsValid d.doc x (via C07). c11_enum_partial / c11_const_partial: const and enum with members of any scalar kind in any mixture (repeats, strings spelling other members' JSON text), validity by JSON equality jsonEq (Draft 2020-12: numbers by value, objects as maps, a string never equals the value it spells): the produced schema never panics and accepts exactly the instances equal to a member; c11_enum_members_accepted: no member is shadowed by another. c11_strict_rejects / c11_strict_silent / c11_strict_full_false over the regenerated keyword table. Each excluded class has a witness theorem and a replayed instance.",
+   note="PARTIAL: outside good/J1 the pinned code violates the property (integer type, nullable unions, sibling keywords next to $ref/allOf/anyOf/oneOf/const/enum/format, keywords without type, open tuples, optional properties accepting null, required on the record path, open objects closed by the round trip, intersection semantics, strict mode silent/unreached keywords): open findings. Not modelled: recursive $ref (non-object cycles would overflow the stack in from.go), user regexes beyond the five emitted shapes, the round-trip document of const/enum with array/object members (their conversion and Parse behaviour IS modelled: fromEnumJ / parsePanicsJ, finding composite-literal, root documents only), format semantics (relative to a sample universe agreed on by gozod and the validator), round trip of format schemas. Trusted as for C07.",
    design="DESIGN.md §5 C11")
 
 MODULES = ["Gozod.Proofs.C11"]
@@ -15,7 +15,11 @@ THEOREMS = ["Gozod.C11.c11_equiv_partial", "Gozod.C11.conv", "Gozod.C11.equivJ",
             "Gozod.C11.witness_sibling_keywords_dropped", "Gozod.C11.witness_keywords_without_type",
             "Gozod.C11.witness_format_siblings_dropped", "Gozod.C11.witness_tuple_items_all_required",
             "Gozod.C11.witness_optional_property_accepts_null", "Gozod.C11.witness_required_on_record_path",
-            "Gozod.C11.witness_roundtrip_open_object", "Gozod.C11.witness_strict_unreached", "Gozod.C11.c11_full_false"]
+            "Gozod.C11.witness_roundtrip_open_object", "Gozod.C11.witness_strict_unreached", "Gozod.C11.c11_full_false",
+            "Gozod.C11.c11_enum_partial", "Gozod.C11.c11_enum_members_accepted", "Gozod.C11.c11_const_partial",
+            "Gozod.C11.fromEnumJ_prims", "Gozod.C11.fromConstJ_prim", "Gozod.C11.enumValidJ_prims", "Gozod.C11.constValidJ_prim",
+            "Gozod.C11.jsonEq_ofPrim", "Gozod.C11.jsonEq_str_left", "Gozod.C11.jsonEq_str_right", "Gozod.C11.scalars_no_panic",
+            "Gozod.C11.witness_composite_member", "Gozod.C11.witness_composite_const", "Gozod.C11.c11_members_full_false"]
 GEN = os.path.join(C.LEAN, "Gozod", "Gen", "KeywordTable.lean")
 
 def extract_table(res):
@@ -133,9 +137,13 @@ def run(res):
              "C11/fromJS+acceptsDecoded+keywordTable")
     res.coverage["cases_in_equivalence_fragment"] = sum(1 for o in ops2 if "IN-EQ" in C.op_comment(o))
     res.coverage["cases_in_roundtrip_fragment"] = sum(1 for o in ops2 if "IN-RT" in C.op_comment(o))
+    hist = stats.get("histogram", {}) if isinstance(stats, dict) else {}
+    res.coverage["const_enum_member_classes"] = {k[8:]: v for k, v in sorted(hist.items()) if k.startswith("members:")}
     res.coverage["rule"] = ("40 keywords x strict mode (behavioural table, regenerated into Gen/KeywordTable.lean); generated documents of depth <= 2 over the "
-        "fragment (see notes/C11.md) x instances at / around every constant, wrong kinds, null, non-ASCII; instance decoded with encoding/json; "
-        "observation = (ParseAny verdict, validator on original document, validator on round-trip document).")
+        "fragment (see notes/C11.md) x instances at / around every constant, wrong kinds, null, non-ASCII; const/enum: heterogeneous members of every JSON kind "
+        "(null, booleans, 1 / 1.0 / 1e0, negatives, fractions, strings incl. empty and strings spelling other members' JSON text, repeats; arrays/objects in root "
+        "documents) x every member, every member's JSON text as a string, every string member read as JSON, near misses of each member; instance decoded with encoding/json; "
+        "observation = (ParseAny verdict or '!' for a panic, validator on original document, validator on round-trip document, integer-directed ParseAny verdict).")
     res.assumptions += ["instances are decoded with plain encoding/json (numbers are float64)",
                         "jsValid as in C07 (cross-checked against kaptinlin/jsonschema on every case)"]
     return res.finish()
